@@ -107,7 +107,12 @@ func (p *Path) decimalOf(t *Term, signed bool) []*Term {
 		if i == 0 && k > 1 {
 			p.addPC(tc.Ne(d, tc.BV(8, 0)))
 		}
-		acc = tc.Bin(OpAdd, tc.Bin(OpMul, acc, tc.BV(64, 10)), tc.ZExt(d, 64))
+		mul := tc.Bin(OpMul, acc, tc.BV(64, 10))
+		if i > 0 {
+			// implied: the shifted prefix does not wrap either
+			p.addPC(tc.Cmp(OpULt, mul, tc.BV(64, pow10[i+1])))
+		}
+		acc = tc.Bin(OpAdd, mul, tc.ZExt(d, 64))
 		// implied bound on the prefix value (helps the solver rule out wrap-around)
 		if i > 0 {
 			p.addPC(tc.Cmp(OpULt, acc, tc.BV(64, pow10[i+1])))
